@@ -40,7 +40,7 @@ PROPERTY_META = {
                 assumptions=['reseed counter < 2^31 - 600 (the int counter does not overflow)', 'bn_mod_basic: ASSUMED contract |result| < |modulus| (division not verified)']),
     'C19': dict(not_covered='control transfer after longjmp (handler body, finaliser on the exceptional path, rethrow chains): setjmp returning twice is not modelled by CBMC; '
                 'per-thread contexts (MULTI build); re-parameterisation equals fresh initialisation'),
-    'C20': dict(not_covered='the ladder / regular-recoding scalar multiplications and exponentiations (ep_mul_monty, bn_mxp_monty, fp_exp_monty, ep_mul_lwreg, ...); '
+    'C20': dict(not_covered='every ladder / regular-recoding algorithm except ep_mul_monty (bn_mxp_monty, fp_exp_monty, ep_mul_lwreg, ed/eb/ep2 forms, gt_exp_sec); the callees of the ladder are trusted constant-time as units; '
                 'memory-address traces and what the compiler does to the source; goto-level branches only (a pure ?: or comparison expression counts as a select)'),
 }
 
